@@ -594,6 +594,8 @@ func (gb *gcpBalancer) refresh(ref *subConnRef) {
 	)
 	if err != nil {
 		gb.log.Errorf("failed to create a replacement SubConn with NewSubConn: %v", err)
+		// Allow a later attempt to refresh this subConnRef.
+		ref.refreshing = false
 		return
 	}
 	gb.refreshingScRefs[sc] = ref
